@@ -321,6 +321,72 @@ impl PrefixParser {
     }
 }
 
+#[cfg(feature = "verif")]
+impl PrefixParser {
+    /// Verification hook: the literal prefix table `(long name, short spellings, is_metric, exponent)`.
+    pub fn verif_prefix_table() -> Vec<(String, Vec<String>, bool, i32)> {
+        Self::prefixes()
+            .iter()
+            .map(|(long, shorts, prefix)| {
+                let (is_metric, exp) = match prefix {
+                    Prefix::Metric(e) => (true, *e),
+                    Prefix::Binary(e) => (false, *e),
+                };
+                (
+                    long.to_string(),
+                    shorts.iter().map(|s| s.to_string()).collect(),
+                    is_metric,
+                    exp,
+                )
+            })
+            .collect()
+    }
+
+    /// Verification hook: registered units in insertion order as
+    /// `(name, accepts short, accepts long, metric, binary, full name)`.
+    pub fn verif_units(&self) -> Vec<(String, bool, bool, bool, bool, String)> {
+        self.units
+            .iter()
+            .map(|(name, info)| {
+                (
+                    name.to_string(),
+                    info.accepts_prefix.short,
+                    info.accepts_prefix.long,
+                    info.metric_prefixes,
+                    info.binary_prefixes,
+                    info.full_name.to_string(),
+                )
+            })
+            .collect()
+    }
+
+    /// Verification hook: the other (non-unit) identifiers, sorted.
+    pub fn verif_other_identifiers(&self) -> Vec<String> {
+        let mut v: Vec<String> = self
+            .other_identifiers
+            .keys()
+            .map(|k| k.to_string())
+            .collect();
+        v.sort();
+        v
+    }
+
+    /// Verification hook: `parse` without spans: `None` for a plain identifier, otherwise
+    /// `(is_metric, exponent, unit name as written, full unit name)`.
+    pub fn verif_parse(&self, input: &str) -> Option<(bool, i32, String, String)> {
+        match self.parse(input) {
+            PrefixParserResult::Identifier(_) => None,
+            PrefixParserResult::UnitIdentifier(_, prefix, name, full_name) => {
+                let (is_metric, exp) = match prefix {
+                    Prefix::Metric(e) => (true, e),
+                    Prefix::Binary(e) => (false, e),
+                };
+                Some((is_metric, exp, name.to_string(), full_name.to_string()))
+            }
+        }
+    }
+}
+
 #[cfg(test)]
 mod tests {
     use super::*;
